@@ -318,11 +318,12 @@ class Part(object):
         measures = np.array([(m.start.t, m.end.t) for m in self.iter_all(Measure)])
 
         # correct for anacrusis
-        divs_per_beat = self.inv_beat_map(
-            1 + self.beat_map(0)
+        t0 = measures[0][0]  # start of the first measure
+        divs_per_beat = (
+            self.inv_beat_map(1 + self.beat_map(t0)) - t0
         )  # find the divs per beat in the first measure
         # number of (notated or musical) beats per measure, matching the beat map
-        beats = self.time_signature_map(0)[2 if self._use_musical_beat else 0]
+        beats = self.time_signature_map(t0)[2 if self._use_musical_beat else 0]
         if measures[0][1] - measures[0][0] < beats * divs_per_beat:
             measures[0][0] = measures[0][1] - np.round(beats * divs_per_beat)
 
@@ -374,11 +375,12 @@ class Part(object):
             ]
         )
         # correct for anacrusis
-        divs_per_beat = self.inv_beat_map(
-            1 + self.beat_map(0)
+        t0 = measures[0][0]  # start of the first measure
+        divs_per_beat = (
+            self.inv_beat_map(1 + self.beat_map(t0)) - t0
         )  # find the divs per beat in the first measure
         # number of (notated or musical) beats per measure, matching the beat map
-        beats = self.time_signature_map(0)[2 if self._use_musical_beat else 0]
+        beats = self.time_signature_map(t0)[2 if self._use_musical_beat else 0]
         if measures[0][1] - measures[0][0] < beats * divs_per_beat:
             measures[0][0] = measures[0][1] - np.round(beats * divs_per_beat)
 
